@@ -174,7 +174,14 @@ def main():
     try:
         drv = build_driver()
         tuc = build_tuc()
-        har = build_harness()
+        lib_broken = None
+        try:
+            har = build_harness()
+        except BuildError as e:
+            # the library API changed under the harness: not by itself a violation of the property;
+            # go on through the binary alone and look for a failing input there
+            lib_broken = str(e)[-2000:]
+            har = build_harness(lib=False)
         shim = build_shim()
         tuc_rel = build_tuc("release") if (tier == "thorough" and P.get("release")) else None
     except BuildError as e:
@@ -195,6 +202,8 @@ def main():
     model = run_model(drv, [c for c in cases if not c.tags.get("nomodel")])
     cli = [c for c in cases if c.entry == "main"]
     lib = [c for c in cases if c.entry != "main"]
+    if lib_broken:
+        lib = []
     impl = {}
     if cli:
         impl.update(run_cli(har, tuc, cli, shim=shim))
@@ -290,6 +299,11 @@ def main():
         if members and any(all(k(c) for c in members) for k in known_classes):
             continue        # inside a listed finding class whose witness still reproduces
         violations.append((what, dict(payload, property=prop, kind="oracle"), True))
+    if lib_broken:
+        violations.append(("the in-process correspondence harness no longer builds against the library API of /repo; "
+                           "the library-channel cases were skipped, the binary was still exercised",
+                           {"property": prop, "kind": "correspondence-build", "correspondence": "harness-rs (lib channel)",
+                            "detail": lib_broken}, False))
     if not ok_coq:
         violations.append(("proof / pin / hygiene check failed",
                            {"property": prop, "kind": "proof", "file": cinfo.get("failed_file"),
